@@ -91,6 +91,8 @@ BAD = {'amr': ['(a / alpha :foo (b / beta))', '(a / alpha :ARG0 (b / beta :ARG10
 
 def check_C16(c):
     c.mc('MC_CliRun', 'MC_CliRun.cfg', workers=8, heap='4g')
+    # unbounded: the exit-status accumulation as an inductive invariant, discharged by Apalache
+    c.mc_runs.append(tlc.apalache_inductive('Apa_CliExit', goal='ExitIffAnyBad'))
     runs = _export(c, 'MC_CliRun', 'MC_CliRunX.cfg', 'runs')
     jobs = []
     # (1) the command over every sequence of inputs of compliant / non-compliant graphs
